@@ -338,3 +338,74 @@ Proof.
       destruct (read_ranges (N.to_nat (Z.to_N nGlyphs)) true (Z.to_N nGlyphs - 1) r) as [[l t]| | |];
         cbn [obind fst snd]; try assumption. cbn [lenN]. lia.
 Qed.
+
+(* ---------- the selection rule picks a shortest format ---------- *)
+
+Lemma lenN_concat_const {A} (f : A -> list N) (k : N) l :
+  (forall x, In x l -> lenN (f x) = k) -> lenN (concat (map f l)) = k * lenN l.
+Proof.
+  induction l as [|x l IH]; intros H; cbn [map concat lenN]; [lia|].
+  rewrite lenN_app, (H x ltac:(left; reflexivity)), IH by (intros y Hy; apply H; right; exact Hy). lia.
+Qed.
+
+Lemma lenN_fmt1_run fu : forall name len,
+  1 <= len -> len / 256 < N.of_nat fu ->
+  lenN (fmt1_run fu name len) = 3 * (1 + extra_chunks len).
+Proof.
+  induction fu as [|fu IH]; intros name len H1 Hfu; [lia|].
+  cbn [fmt1_run]. destruct (N.eqb_spec len 0); [lia|].
+  destruct (N.ltb_spec 256 len) as [Hb|Hs].
+  - cbn [app lenN]. rewrite IH by lia. unfold extra_chunks. lia.
+  - replace (len - len) with 0 by lia.
+    assert (Hnil : forall fu' z, fmt1_run fu' z 0 = []) by (intros [|fu'] z; reflexivity).
+    rewrite Hnil. cbn [app lenN]. unfold extra_chunks. lia.
+Qed.
+
+Lemma lenN_fmt1 rs : Forall run_ok rs ->
+  lenN (concat (map (fun r => fmt1_run (fmt1_fuel (snd r)) (fst r) (snd r)) (map zrun rs)))
+  = 3 * lenN rs + 3 * sumN (map (fun r => extra_chunks (snd r)) (map zrun rs)).
+Proof.
+  induction 1 as [|p rs Hp Hrs IH]; [reflexivity|].
+  cbn [map concat lenN sumN]. rewrite lenN_app, IH. destruct Hp as [Hp1 Hp2].
+  change (snd (zrun p)) with (snd p). change (fst (zrun p)) with (Z.of_N (fst p)).
+  rewrite lenN_fmt1_run by (unfold fmt1_fuel; lia). lia.
+Qed.
+
+Lemma charset_format_shortest_gen ns bs :
+  Forall small ns ->
+  M_charset_encode (0%Z :: map Z.of_N ns) = Ok bs ->
+  let names := map Z.of_N ns in
+  let l0 := cs_length0 names in
+  let l1 := cs_length1 (M_runs names) in
+  let l2 := cs_length2 (M_runs names) in
+  lenN bs = N.min l0 (N.min l1 l2) /\
+  (nth 0 bs 0 = 0 -> lenN bs = l0) /\ (nth 0 bs 0 = 1 -> lenN bs = l1) /\ (nth 0 bs 0 = 2 -> lenN bs = l2).
+Proof.
+  intros Hs. unfold M_charset_encode. cbn [Z.eqb negb]. rewrite existsb_small by exact Hs.
+  cbn zeta. unfold cs_format.
+  set (names := map Z.of_N ns).
+  set (l0 := cs_length0 names). set (l1 := cs_length1 (M_runs names)). set (l2 := cs_length2 (M_runs names)).
+  assert (H0 : lenN (0 :: concat (map (fun x => [zhi8 x; zlo8 x]) names)) = l0).
+  { cbn [lenN]. rewrite (lenN_concat_const _ 2) by (intros; reflexivity). unfold l0, cs_length0. lia. }
+  destruct ns as [|x r].
+  - (* no names besides .notdef: format 0 *)
+    cbn in *. intros H; inversion H; subst. cbn. repeat split; try lia; try discriminate.
+  - destruct (runsN_spec (x :: r) ltac:(congruence) Hs) as [He Hok].
+    assert (Hr : M_runs names = map zrun (runsN (x :: r))) by (unfold names; apply M_runs_N; exact Hs).
+    assert (H1 : lenN (1 :: concat (map (fun r0 => fmt1_run (fmt1_fuel (snd r0)) (fst r0) (snd r0)) (M_runs names))) = l1).
+    { cbn [lenN]. rewrite Hr, lenN_fmt1 by exact Hok. unfold l1, cs_length1. rewrite Hr, lenN_map. lia. }
+    assert (H2 : lenN (2 :: concat (map (fun r0 => [zhi8 (fst r0); zlo8 (fst r0); nhi8 (snd r0 - 1); nlo8 (snd r0 - 1)]) (M_runs names))) = l2).
+    { cbn [lenN]. rewrite (lenN_concat_const _ 4) by (intros; reflexivity). unfold l2, cs_length2. lia. }
+    assert (Fin : forall k body lk, lenN (k :: body) = lk -> lk = N.min l0 (N.min l1 l2) ->
+              (k = 0 -> lk = l0) -> (k = 1 -> lk = l1) -> (k = 2 -> lk = l2) ->
+              Ok (k :: body) = Ok bs ->
+              lenN bs = N.min l0 (N.min l1 l2) /\
+              (nth 0 bs 0 = 0 -> lenN bs = l0) /\ (nth 0 bs 0 = 1 -> lenN bs = l1) /\ (nth 0 bs 0 = 2 -> lenN bs = l2)).
+    { intros k body lk Hk Hmin K0 K1 K2 Henc. inversion Henc; subst bs. rewrite Hk. cbn [nth].
+      split; [exact Hmin|]. split; [exact K0|]. split; [exact K1|exact K2]. }
+    destruct (N.leb_spec l0 l1) as [A|A], (N.leb_spec l0 l2) as [B|B]; cbn [andb].
+    + apply (Fin 0 _ l0 H0); intros; lia.
+    + destruct (N.ltb_spec l1 l2) as [C|C]; [apply (Fin 1 _ l1 H1); intros; lia|apply (Fin 2 _ l2 H2); intros; lia].
+    + destruct (N.ltb_spec l1 l2) as [C|C]; [apply (Fin 1 _ l1 H1); intros; lia|apply (Fin 2 _ l2 H2); intros; lia].
+    + destruct (N.ltb_spec l1 l2) as [C|C]; [apply (Fin 1 _ l1 H1); intros; lia|apply (Fin 2 _ l2 H2); intros; lia].
+Qed.
